@@ -18,7 +18,11 @@ import (
 type memStreamer struct {
 	base      boson.Address
 	protocols []p2p.ProtocolSpec
+	handlers  sync.WaitGroup // protocol handler goroutines started through this streamer
 }
+
+// Wait blocks until every protocol handler started through this streamer has returned.
+func (m *memStreamer) Wait() { m.handlers.Wait() }
 
 var errNoStream = errors.New("nodelite: stream not supported")
 
@@ -104,7 +108,9 @@ func (m *memStreamer) NewStream(ctx context.Context, addr boson.Address, h p2p.H
 	a, b := newPipe(), newPipe()
 	out := &memStream{r: a, w: b}
 	in := &memStream{r: b, w: a}
+	m.handlers.Add(1)
 	go func() {
+		defer m.handlers.Done()
 		_ = handler(context.Background(), p2p.Peer{Address: m.base, Mode: aurora.NewModel().SetMode(aurora.FullNode)}, in)
 	}()
 	return out, nil
